@@ -16,8 +16,10 @@ EtaLists == { <<e>> : e \in Etas }
        \cup { << <<1, 2>>, <<3, 4>> >>, << <<1, 1>>, <<3, 2>> >>, << <<2, 1>>, <<5, 2>>, <<3, 1>> >>,
                << <<21, 2>>, <<10, 1>>, <<41, 4>> >> }
 
-Sizes2 == { << <<2>> >>, << <<2, 3>> >>, << <<2>>, <<3>> >>, << <<2, 2>>, <<3, 3>>, <<4, 4>> >>, << <<3, 2>>, <<2, 4>> >> }
-Sizes3 == { << <<2>> >>, << <<2, 2, 2>>, <<3, 3, 3>> >>, << <<2, 3, 4>> >>, << <<2, 3>>, <<3, 2, 2>> >> }
+Sizes2 == { << <<2>> >>, << <<2, 3>> >>, << <<2>>, <<3>> >>, << <<2, 2>>, <<3, 3>>, <<4, 4>> >>, << <<3, 2>>, <<2, 4>> >>,
+            << <<10, 12>> >>, << <<11>>, <<3, 12>> >> }       \* two-digit sides
+Sizes3 == { << <<2>> >>, << <<2, 2, 2>>, <<3, 3, 3>> >>, << <<2, 3, 4>> >>, << <<2, 3>>, <<3, 2, 2>> >>,
+            << <<2, 10, 2>> >> }
 
 Ranges == { [kind |-> "range", min |-> mn, max |-> mn + span, step |-> st, vals |-> <<>>] :
                mn \in (IF Big THEN {0, 5, 10, 50, 100} ELSE {0, 10, 50}),
